@@ -63,32 +63,49 @@ THEOREMS = [("Kopf.Props.C03", "Kopf.C03." + n) for n in [
     "accumulated_change", "blind_quiescent", "blind_witness", "free_quiescent", "shared_id_witness",
     "free_witness", "skip_path_purges", "terminates_stable", "filtersStable_of_essence"]]
 RULE = ("seeded histories of one object: 1-4 change handlers (create/update/resume/delete, label filters, retries/timeout/backoff/"
-        "errors, scripts with finitely many temporary/arbitrary/permanent failures then ok, three lifecycles), 0-6 external ops "
-        "(spec edits, reverts, label flips, annotation edits, status-only edits, bursts, delete(+recreate), graceful stop / kill / kill right before or "
-        "right after the server applied the next PATCH, each with a downtime with or without edits, lost requests/responses), echo "
-        "delays, on.event handlers returning a constant (8 %), handlers using patch.fns with an external edit slipped between merge-patch and JSON-patch (10 %), objects existing before the first start, objects whose essence is empty ({} / empty spec / status only); then a silent tail long enough for every scripted failure. One case = one "
-        "history; distinct & non-trivial = distinct (outstanding change, restart kinds, tail pass shapes, final classification) with "
-        "at least one handler-reason pass or restart")
+        "errors, scripts with finitely many temporary/arbitrary/permanent failures then ok, handlers that take time (8 %), ONE id "
+        "registered for two causes (6 %), three lifecycles), 0-6 external ops (spec edits, reverts, label flips, annotation edits, "
+        "status-only edits, bursts, delete(+recreate), graceful stop / kill / kill right before or right after the server applied "
+        "the next PATCH, each with a downtime with or without edits, lost requests/responses, a foreign edit followed by a watch "
+        "stream cut at once (undelivered echoes lost; re-watch or 410 + re-list)), echo delays, watch reconnects every 32 s (8 %), "
+        "on.event handlers returning a constant (8 %) or appending an idempotent patch function (6 %), handlers using patch.fns "
+        "with an external edit slipped between merge-patch and JSON-patch (10 %; in the constant variant the edit fulfils the "
+        "function, which is then carried as a no-op), a foreign finalizer on the object (7 %, let go at the end in half of them), "
+        "objects existing before the first start, objects whose essence is empty ({} / empty spec / status only); then a silent "
+        "tail long enough for every scripted failure. One case = one history; distinct & non-trivial = distinct (outstanding "
+        "change, restart kinds, tail pass shapes, final classification) with at least one handler-reason pass or restart")
 TRUSTED = ["harness/sim (virtual-time loop, fake API server, scripted handlers, attribute-level observation of kopf)",
-           "harness/props/sim_c03.py (kill hooks on the in-flight PATCH, windowed connection faults)",
+           "harness/props/sim_c03.py (kill hooks on the in-flight PATCH, windowed connection faults, stream cuts, patch-function action)",
            "abstraction of the tail's first pass: records decoded with kopf's own progress storage (C16's subject), "
            "last-handled vs essence taken from kopf's own diff (C04's subject)"]
 ASSUMPTIONS = ["GUARD FiltersStable: selection / prematch / finalizer requirement / handler behaviour do not depend on what the "
                "framework itself writes (records, last-handled, touch-dummy, finalizer, status.<handler>); generated filters are "
-               "label filters; without the guard nothing is claimed (Props: terminates_stable)",
+               "label filters (no when=/field= filters: they are C15's; a filter reading status.<handler> is outside the guard); "
+               "without the guard nothing is claimed (Props: terminates_stable)",
+               "GUARD `idle env = false` on the final-state / convergence / open-pass theorems: no cycle's patch consists of "
+               "functions only that yield no operation (OPEN findings C03-N1/N2 are exactly the complement; the model has the "
+               "class as `Env.idleFns` and behaves as the code does: idle_fns_lost_wakeup_witness; the tie compares such tails)",
+               "'finitely many failures': the theorems take the outcomes FROM the state on as final (`AllFinal`); the failing "
+               "prefix of a script is an arbitrary sequence of turns before it (restart_safe). That the retry counters of a "
+               "script leave its failing prefix is not proved; every generated script has finitely many failures and the oracle "
+               "checks its history to the end",
                "`Env.subs` lists every sub-handler id occurring in stored or returned subrefs (else `writes` may miss a "
-               "purge-only PATCH; termination and final_state do not depend on it); no sub-handlers are generated",
+               "purge-only PATCH; termination and final_state do not depend on it); no sub-handlers are generated (their passes "
+               "are C02's `cycle2` / C13's subject)",
                "`Env.constPatch` (a patch that changes nothing in every cycle, e.g. an on.event handler returning a constant) is "
                "modelled for the request count and the sleep/touch decision; NOT modelled: the cycle after a keepalive touch that "
                "wakes nobody then also cleans the touch-dummy, which does change the object (one more PATCH + echo per keepalive "
-               "round) — such tails are skipped by the tie",
-               "no foreign finalizers in generated histories (model parameter `foreignFins`, proved for both values)",
-               "handlers are instantaneous (no awaits inside scripted handlers): both clock readings of a pass coincide",
-               "handlers return no result (no status.<handler> write besides the progress record)",
-               "randomized/shuffled lifecycles are not modelled; filters are label filters (read the essence only)",
-               "an object that no changing handler's filters accept is out of the framework's sight by design "
-               "(processing.py: 'be blind to it, store no state'): for it only 'stops writing' and 'no records remain' are checked",
-               "a finalizer edit that also cleans the touch-dummy (two requests, two echoes) is skipped by the tie as a leading cycle"]
+               "round) — such tails are skipped by the tie (`const-patch+keepalive`, counted)",
+               "handlers that take time are generated and judged by the oracle; the model's pass has ONE clock reading, so a tail "
+               "in which a handler call takes time is skipped by the tie (`handler-takes-time`, counted)",
+               "patch functions of change handlers (JSON-patch after merge-patch, 422, carried patches) are C08's transport: a tail "
+               "in which one is sent or carried is skipped by the tie (`user-patch-fns`, counted); the oracle judges those histories",
+               "handlers return no result (no status.<handler> write besides the progress record), except on.event constants",
+               "randomized/shuffled lifecycles are not modelled",
+               "tail cycles the model has no turn for are dropped and COUNTED (`tail_leading_cycles_dropped`): cycles held back by "
+               "the consistency barrier (C07), cycles on a view older than the server's state (echoes still in flight when the "
+               "environment fell silent), a finalizer edit that also cleans the touch-dummy (two requests, two echoes), the echo "
+               "of the merge half of a two-request write inside the tail"]
 
 OWN_PREFIX = "kopf.zalando.org/"
 LAST_HANDLED = OWN_PREFIX + "last-handled-configuration"
@@ -876,7 +893,8 @@ def gen_scenario(rng: Any, i: int) -> dict:
         body0 = {**body0, "metadata": {**(body0.get("metadata") or {}), "finalizers": ["example.com/hold"]}}
     sc: dict[str, Any] = {"seed": i, "lifecycle": rng.choice(["asap", "one_by_one", "all_at_once"]), "handlers": handlers,
                           "settings": {"execution.default_backoff": rng.choice([1.0, 2.0]),
-                                       "watching.server_timeout": 32.0 if rng.random() < 0.08 else 4096.0},
+                                       "watching.server_timeout": 32.0 if rng.random() < 0.08 else 4096.0,
+                                       "watching.reconnect_backoff": 0.125},
                           "echo_delay": {"default": echo}}
     tl: list[list] = []
     t = 1.0
@@ -895,7 +913,7 @@ def gen_scenario(rng: Any, i: int) -> dict:
     for _ in range(rng.choice([0, 1, 2, 2, 3, 4, 6])):
         t += step()
         op = rng.choice(["edit", "edit", "edit", "revert", "flip", "flip", "note", "burst", "delete",
-                         "stop", "kill", "killw", "killw", "fault", "status"])
+                         "stop", "kill", "killw", "killw", "fault", "status", "cut"])
         if empty and rng.random() < 0.8:     # mostly keep the essence empty: restarts and non-essential events only
             op = rng.choice(["status", "status", "stop", "kill", "killw"])
         if op == "status":
@@ -927,6 +945,13 @@ def gen_scenario(rng: Any, i: int) -> dict:
                 t += step()
                 x, xs = 0, [0]
                 tl.append([t, "create", "a", body0])
+        elif op == "cut":
+            # a foreign change, then the watch stream is cut at once: echoes not yet delivered are lost (the operator may be
+            # waiting for the version of its own last write, which then never arrives); re-watch or re-list (410)
+            x = max(xs) + 1
+            xs.append(x)
+            tl.append([t, "edit", "a", {"spec": {"x": x}}])
+            tl.append([t, "cut"] + (["410"] if rng.random() < 0.6 else []))
         elif op == "fault":
             # lost requests / lost responses inside a window that closes with one more edit (never inside the tail)
             x = max(xs) + 1
